@@ -188,7 +188,7 @@ def r_buf_pairing(ctx):
                               f"(task, quantity); an assertion of its own removes schedules the buffer allows", loc(e))
 
 
-def _no_dup_semantic(a, cs, z) -> bool:
+def _no_dup_semantic(a, cs, z, chain_required=True) -> bool:
     """the two obligations of sort_no_duplicates whatever way the loops are written (over positions or over the elements):
     one fresh integer per input; for every sorted variable, Or over ALL inputs of `variable == input`; one strict chain
     a[i] < a[i + 1] for i = 0 .. n - 2"""
@@ -202,6 +202,8 @@ def _no_dup_semantic(a, cs, z) -> bool:
     if not (a[0] == "list" and len(a[1]) == 1 and one_each(a[1][0]) and a[1][0][3][0] == "fresh" and full_range(a[1][0][1][0], n)):
         return False
     La, fresh = a[1][0][1][0], a[1][0][3]
+    if not chain_required and cs[0] == "list" and len(cs[1]) == 1:
+        cs = ("list", (cs[1][0], None))          # fewer than two values: there is no pair to order
     if not (cs[0] == "list" and len(cs[1]) == 2):
         return False
     mem, chain = cs[1]
@@ -222,6 +224,15 @@ def _no_dup_semantic(a, cs, z) -> bool:
     eqt = body[2][3]
     if not (is_app(eqt, "==") and len(eqt) == 4 and ((eqt[2] in var_forms and eqt[3] == inp) or (eqt[3] in var_forms and eqt[2] == inp))):
         return False
+    if chain is None:
+        return True
+    if isinstance(chain, tuple) and chain and chain[0] == "each" and not chain[1] and len(chain[2]) == 1:
+        # the chain appended only when there is a pair to order: `if n > 1` / `if len(sorted) >= 2`
+        g_ = norm(chain[2][0])
+        two = is_app(g_) and len(g_) == 4 and ((g_[1] == ">" and g_[3] == K(1)) or (g_[1] == ">=" and g_[3] == K(2))) and same_int(g_[2], n)
+        if not two:
+            return False
+        chain = chain[3]
     if not (is_app(chain, "And") and len(chain) == 3 and one_each(chain[2])):
         return False
     Lc, c = chain[2][1][0], chain[2][3]
@@ -265,7 +276,10 @@ def r_sort_net(ctx):
             Lc = loop("b0.0", ("range", K(0), sub(n, K(1))))
             want = ("list", (("each", (Li,), (), app("Or", ("each", (Lj,), (), eq(("idx", a, elem(Li)), ("idx", z, elem(Lj)))))),
                              app("And", ("each", (Lc,), (), lt(("idx", a, elem(Lc)), ("idx", a, add(elem(Lc), K(1))))))))
-            ok = canon(cs) == canon(want) or _no_dup_semantic(rv[1][0], rv[1][1], z)
+            # a path on which the list is known to have fewer than two values has no pair to order
+            short = any(("len(" in k_ and (">= 2" in k_ or "> 1" in k_) and v_ is False) or ("len(" in k_ and ("< 2" in k_ or "<= 1" in k_) and v_ is True)
+                        for k_, v_ in r.decisions)
+            ok = canon(cs) == canon(want) or _no_dup_semantic(rv[1][0], rv[1][1], z, chain_required=not short)
         if ok:
             ctx.ok("R-SORT-NET", "util.sort_no_duplicates: every sorted value is one of the inputs, strictly increasing chain",
                    sample={"returns": show(norm(rv))[:300]})
